@@ -2,6 +2,7 @@ package main
 
 import (
 	"fmt"
+	"regexp"
 	"sync"
 	"go/token"
 	"go/types"
@@ -105,11 +106,17 @@ func (P *Program) isRepoFunc(fn *ssa.Function) bool {
 
 // tag returns the dynamic type tag for T.
 var tagMu sync.Mutex
+var aliasRe = regexp.MustCompile(`\b(byte|rune)\b`)
 
 func (P *Program) tag(T types.Type) uint64 {
 	tagMu.Lock()
 	defer tagMu.Unlock()
-	k := types.TypeString(T, nil)
+	k := aliasRe.ReplaceAllStringFunc(types.TypeString(T, nil), func(m string) string {
+		if m == "byte" {
+			return "uint8"
+		}
+		return "int32"
+	})
 	if t, ok := P.tagOf[k]; ok {
 		return t
 	}
